@@ -20,7 +20,7 @@ from mc.common import Result, h64
 from mc import fp
 from mc.lexer import LexError, lex
 
-from pypika_tortoise import JSON, Array, Case, Table, Tuple
+from pypika_tortoise import JSON, Array, Case, Query, Table, Tuple
 from pypika_tortoise import functions as FN
 from pypika_tortoise.queries import Column
 from pypika_tortoise.terms import ValueWrapper
@@ -134,8 +134,32 @@ def _t():
     return Table("t")
 
 
+class _UnderParameterizer:
+    """a statement observed through get_parameterized_sql(): values that opted out of parameterisation are still inlined there"""
+
+    def __init__(self, q):
+        self.q = q
+
+    def get_sql(self, ctx=None):
+        return self.q.get_parameterized_sql(ctx)[0] if ctx is not None else self.q.get_parameterized_sql()[0]
+
+    def __str__(self):
+        return self.get_sql()
+
+
+def _noparam(v):
+    return ValueWrapper(v.value if isinstance(v, ValueWrapper) else v, allow_parametrize=False)
+
+
 POS = {
     "select": lambda Q, v: Q.from_(_t()).select(W(v)),
+    # three levels of nesting whose inner levels were built through the generic class: the statement's dialect reaches the innermost literal
+    "nested3_generic_inner": lambda Q, v: Q.from_(Query.from_(Query.from_(_t()).select("a").where(_t().a == v)).select("a")).select("a"),
+    "nested3_in": lambda Q, v: Q.from_(_t()).select("a").where(_t().a.isin(Query.from_(Query.from_(_t()).select("a").where(_t().b == v)).select("a"))),
+    # values that opted out of parameterisation, rendered while a parameterizer is active
+    "noparam_where": lambda Q, v: _UnderParameterizer(Q.from_(_t()).select("a").where(_t().a == _noparam(v)).where(_t().b == 7)),
+    "noparam_select": lambda Q, v: _UnderParameterizer(Q.from_(_t()).select(_noparam(v)).where(_t().b == 7)),
+    "noparam_set": lambda Q, v: _UnderParameterizer(Q.update(_t()).set(_t().a, _noparam(v)).where(_t().b == 7)),
     "where_eq": lambda Q, v: Q.from_(_t()).select("a").where(_t().a == v),
     "where_ne_r": lambda Q, v: Q.from_(_t()).select("a").where(ValueWrapper(1) != v),
     "like": lambda Q, v: Q.from_(_t()).select("a").where(_t().a.like(v)),
